@@ -142,10 +142,18 @@ MAP_SOURCES = [
        'static bucket_t* vhm_lock_bucket_real(struct vhm* self, hash_t hash, guarded_block* block_p, bstate_t* state_p)',
        post_subst=ref_params('block', 'state') + [(r'return bucket;', 'return &bucket;', 'ref_return')],
        must_fire={'A_LOAD': 1, 'A_CAS': 1, 'method:acquire': 1, 'subst:ref_return': 1, 'reference': 1}),
+  mapf('lock_bucket_int', r'auto vyukov_hash_map<Key, Value, Policies...>::lock_bucket\(hash_t hash, guarded_block& block, bucket_state& state\)\s*-> bucket&',
+       'static bucket_t* vhm_lock_bucket_int(struct vhm* self, hash_t hash, guarded_block* block_p, bstate_t* state_p)',
+       post_subst=ref_params('block', 'state') + [(r'return bucket;', 'return &bucket;', 'ref_return')], cut_loops={0: 'LOCK'},
+       must_fire={'A_LOAD': 1, 'A_CAS': 1, 'cut_loop': 1}),
   mapf('grow', r'void vyukov_hash_map<Key, Value, Policies...>::grow\(bucket& bucket, bucket_state state\)',
        'static void vhm_grow_real(struct vhm* self, bucket_t* bucket_p, bstate_t state)',
        self_calls={'do_grow': 'vhm_do_grow'}, post_subst=ref_params('bucket'),
        must_fire={'A_XCHG': 1, 'A_STORE': 1, 'A_LOAD': 1, 'self_call:do_grow': 1}),
+  mapf('do_grow', r'void vyukov_hash_map<Key, Value, Policies...>::do_grow\(\)', 'static void vhm_do_grow_real(struct vhm* self)',
+       subst=[(r'\bblock\* new_block', 'block_t* new_block', 'block_type'), (r'\bguarded_block g\(old_block\);', 'guarded_block g = old_block;', 'guard_ctor')],
+       self_calls={'allocate_block': 'vhm_allocate_block'},
+       must_fire={'throw': 1, 'subst:traits_tcall': 2, 'call:allocate_extension_item': 1, 'A_CAS': 1, 'method:reclaim': 1, 'reference': 4}),
   mapf('do_extract', r'bool vyukov_hash_map<Key, Value, Policies...>::do_extract\(const key_type& key, accessor& result\)',
        'static _Bool vhm_do_extract_real(struct vhm* self, kkey_t key, accessor* result_p)',
        post_subst=ref_params('result'), py_post=do_extract_post,
@@ -207,6 +215,9 @@ for nt in (0, 1):
     for L, tiers in ((2, QT), (3, T)):
         RUNS.append(dict(w_run('get_solo_%s%d' % (sfx, L), 'h_get_seq', L, nt, tiers, {'vhm_try_get_value__0': 1, 'vhm_try_get_value__2': 1, 'vhm_try_get_value__3': 1, 'vhm_try_get_value__5': 1, 'vhm_try_get_value__1': 4, 'vhm_try_get_value__4': L + 1}),
                          mode='SOLO', unwind_obligation='vhm.get.terminates'))
+RUNS.append(dict(w_run('lock_int', 'h_lock_int', 1, 0, QT, {}), mode='INT', cls='unbounded', note='spin loop cut by invariant LOCK; environment: other threads lock/unlock/modify the bucket at will'))
+for L, nt, tiers in ((1, 0, QT), (1, 1, QT), (2, 0, T), (2, 1, T)):
+    RUNS.append(dict(w_run('do_grow_%s%d' % ('n' if nt else 't', L), 'h_do_grow', L, nt, tiers, {}), note='one old bucket (3 slots + chain <= %d) rehashed into two new buckets; allocate_block is a stub' % L))
 RUNS.append(w_run('grow_t', 'h_grow', 1, 0, ['quick', 'thorough'], {'vhm_grow_real__0': 1}))
 
 UNIT = dict(
@@ -230,6 +241,8 @@ UNIT = dict(
     'vhm.emplace.retry_state': dict(deciding=True, text='when no extension item is free the operation calls grow once with the locked bucket and its state, has changed nothing, and does not write the old bucket after grow released it (unlocker disabled) before retrying'),
     'vhm.alloc_ext.pops_free': dict(deciding=True, text='allocate_extension_item returns null iff every free list of the block is empty; otherwise it pops the head of the first non-empty list in probe order (hash + idx) & (count - 1), leaves every other item and list unchanged and releases the extension bucket lock'),
     'vhm.free_ext.own_bucket': dict(deciding=True, text='free_extension_item finds the extension bucket that contains the item by address arithmetic (for any base address aligned as allocate_block aligns it) and pushes the item on that free list only; lock released'),
+    'vhm.lock_bucket.acquired': dict(deciding=True, text='[INT] lock_bucket returns only after its CAS changed the state of bucket hash & mask of the current block from an unlocked value st to st.locked(); it reports that bucket, that block and st; it never stores anything else'),
+    'vhm.grow.conserves': dict(deciding=True, text='do_grow: an arbitrary key of the old bucket is afterwards in bucket hash & new_mask of the new block with the same value (node) and in no other bucket; absent keys stay absent; item totals agree; new buckets are well formed, each new extension item is in exactly one place; the new block is published, the old one retired once and its buckets stay locked; on bad_alloc nothing changed'),
     'vhm.grow.resize_lock': dict(deciding=True, text='grow takes the resize lock, releases the bucket lock before do_grow runs, calls do_grow exactly once when it got the resize lock, and the resize lock is free afterwards'),
     'vhm.get.validated': dict(deciding=True, text='[INT] try_get_value returns true only with the value it loaded from the value cell of an item whose key cell (and, NONTRIVIAL, whose node key) matched, and only if a state load made after the value load shows the version of this iteration\'s first state load and a delete marker different from that slot; extension items are reached through pointers loaded in the same iteration'),
     'vhm.get.terminates': dict(deciding=True, text='[SOLO] with a stable bucket (no interference) try_get_value returns within the shape bound: the retry loop is not re-entered, the array loop makes <= 3 and the chain loop <= chain-length iterations (unwinding assertions)'),
@@ -242,6 +255,8 @@ UNIT = dict(
     'vhm.remove.version_bumped': dict(deciding=True, text='writer guarantee: a removal ends with the version advanced; occupied array slots are written only while the delete marker names them; a marker is cleared and the item count shrinks only together with a version bump; a linked extension item is not written before the version moved'),
     'vhm.sync.release': dict(deciding=True, text='sync precondition: state stores that change version or item count, value stores into marked slots and head stores are release-or-stronger'),
   },
-  loop_obligation={'RETRY': 'vhm.get.validated', 'CHAIN': 'vhm.get.validated'},
+  replays={'vhm.erase.retires_only_removed': dict(src='replay_ops.cpp'), 'vhm.extract.iff_present': dict(src='replay_ops.cpp'),
+           'vhm.emplace.iff_absent': dict(src='replay_ops.cpp'), 'vhm.get.terminates': dict(src='replay_ops.cpp'), 'vhm.get.seq_lookup': dict(src='replay_ops.cpp')},
+  loop_obligation={'RETRY': 'vhm.get.validated', 'CHAIN': 'vhm.get.validated', 'LOCK': 'vhm.lock_bucket.acquired'},
   canaries=[],
 )
